@@ -33,6 +33,7 @@ import tr_cli  # noqa: E402
 
 LEVEL = "exploration"
 EXTRA_NOTES = set()
+EXTRA_JAC = [[]]
 
 
 # ---------------------------------------------------------------------- evaluation of a loaded configuration
@@ -103,6 +104,136 @@ def zero_jacobian(t):
     return False
 
 
+def root_id(i):
+    """the constrained parameter an unconstrained child belongs to: strip the suffixes the CLI appends"""
+    changed = True
+    while changed:
+        changed = False
+        for suf in (".unres", ".unshifted"):
+            if i.endswith(suf):
+                i, changed = i[: -len(suf)], True
+    return i
+
+
+def expected_free(cfg):
+    """SPECIFICATION (hand-written from the models' definitions, not from the CLI code): the parameters that are free —
+    to be estimated — for a model and its flags.  Everything else the configuration defines is fixed."""
+    free = set()
+    clock, tp, model = cfg.get("clock"), cfg.get("treeprior"), cfg.get("model")
+    init = cfg.get("init")
+    # tree
+    if not clock:
+        free.add("tree.blens")
+    elif cfg.get("heights") == "ratio":
+        free |= {"tree.ratios", "tree.root_height"}
+    else:
+        free.add("tree.shifts")
+    # clock
+    if clock == "strict":
+        if init != "rate_fixed":
+            free.add("branchmodel.rate")
+    elif clock == "ucln":
+        free |= {"branchmodel.rates", "branchmodel.rates.prior.mean", "branchmodel.rates.prior.stdev"}
+    elif clock == "horseshoe":
+        free |= {"branchmodel.rate", "branchmodel.rates.unscaled", "branchmodel.global.scale", "branchmodel.local.scales"}
+    # substitution model: JC69, LG, WAG have no free parameter; K80 and SYM have EQUAL (fixed) frequencies
+    if model == "K80":
+        free.add("substmodel.kappa")
+    elif model == "HKY":
+        free |= {"substmodel.kappa", "substmodel.frequencies"}
+    elif model == "SYM":
+        free.add("substmodel.rates")
+    elif model == "GTR":
+        free |= {"substmodel.rates", "substmodel.frequencies"}
+    elif model == "SRD06":
+        free |= {f"substmodel.{t}.{q}" for t in ("12", "3") for q in ("kappa", "frequencies")} | {"srd06.mu"}
+    elif model == "MG94":
+        free |= {"substmodel.kappa", "substmodel.alpha", "substmodel.beta"}
+    # among-site rate variation
+    tags = ["sitemodel.12", "sitemodel.3"] if model == "SRD06" else ["sitemodel"]
+    if cfg.get("categories", 1) > 1:
+        free |= {t + ".shape" for t in tags}
+    if cfg.get("invariant"):
+        free |= {t + ".pinv" for t in tags}
+    # tree prior
+    if tp in ("constant", "exponential"):
+        if not (tp == "constant" and init == "coalescent_integrated"):
+            free.add("coalescent.theta")
+        if tp == "exponential":
+            free.add("coalescent.growth")
+    elif tp in ("skyride",) + S.COALESCENT_GRID:
+        free.add("coalescent.theta")
+        if init != "gmrf_integrated":
+            free.add("gmrf.precision")
+        if tp == "piecewise-exponential":
+            free.add("coalescent.growth")
+    elif tp == "bd-constant":
+        free |= {"constant.lambda", "constant.mu", "constant.psi", "constant.rho", "constant.origin"}
+    elif tp == "bd-bdsk":
+        free |= {"bdsk.R", "bdsk.delta", "bdsk.s", "bdsk.rho", "bdsk.origin"}
+    return free
+
+
+MOVED_ALIASES = {"srd06.mus": "srd06.mu", "coalescent.theta.log": "coalescent.theta", "theta1": "coalescent.theta", "theta": "coalescent.theta"}
+
+
+def free_fixed_violations(dic, cfg, moved, extra_traits=False):
+    """(a) what the engine moves = (b) what the model semantics say is free; each moved parameter lies under a prior"""
+    import torch  # noqa: F401
+
+    fails = []
+    moved_roots = {MOVED_ALIASES.get(root_id(i), root_id(i)) for i in moved}
+    want = expected_free(cfg)
+    for i in sorted(moved_roots - want):
+        fails.append((f"eval:fixed-parameter-estimated:{i}",
+                      f"`{i}` is not a free parameter of this model/flags but the emitted sampler/optimiser moves it "
+                      f"(moved: {sorted(moved_roots)}; free by specification: {sorted(want)})"))
+    for i in sorted(want - moved_roots):
+        fails.append((f"eval:free-parameter-not-estimated:{i}",
+                      f"`{i}` is a free parameter of this model/flags but nothing in the emitted file moves it "
+                      f"(moved: {sorted(moved_roots)})"))
+    # every moved parameter lies under the random variable of some prior
+    priors = flatten_models(dic["prior"]) if "prior" in dic else []
+    under, seen = set(), set()
+    stack = [random_variable(p) for p in priors]
+    while stack:
+        o = stack.pop()
+        if o is None or id(o) in seen:
+            continue
+        seen.add(id(o))
+        if getattr(o, "id", None) is not None:
+            under.add(o.id)
+        stack.extend(downward(o))
+    no_tree_prior = cfg.get("treeprior") is None
+    for i in moved:
+        if no_tree_prior and root_id(i).startswith("tree."):
+            continue        # a clock without a tree prior: the (improper) flat prior on the heights is the user's choice
+        if i in dic and i not in under:
+            fails.append((f"eval:moved-without-prior:{root_id(i)}",
+                          f"the sampler moves `{i}` but no prior term of the joint is placed on it or on anything above it"))
+    # every Jacobian term belongs to a moved, prior-bearing parameter
+    flagged = {s_.split(":", 2)[2] for s_, _ in fails if s_.startswith("eval:moved-without-prior:")}
+    for t in EXTRA_JAC[0]:
+        tid = str(getattr(t, "id", "?"))
+        r = MOVED_ALIASES.get(root_id(tid), root_id(tid))
+        if r in flagged or (no_tree_prior and (r.startswith("tree.") or r == "tree")):
+            continue        # already reported through its parameter / heights without a tree prior
+        below = set()
+        stack = [t]
+        while stack:
+            o = stack.pop()
+            if getattr(o, "id", None) is not None:
+                below.add(o.id)
+            stack.extend([x for x in downward(o) if x is not None])
+        if not (below & set(moved)):
+            fails.append((f"eval:jacobian-of-unmoved-parameter:{r}",
+                          f"joint.jacobian counts the log-Jacobian of `{tid}` but the sampler moves nothing underneath it"))
+        else:
+            fails.append((f"eval:jacobian-without-prior:{r}",
+                          f"joint.jacobian counts the log-Jacobian of `{tid}` although no prior is placed on it"))
+    return fails
+
+
 def moved_parameters(dic, cmd):
     """ids of the parameters the sampler / optimiser moves"""
     ids = []
@@ -171,6 +302,7 @@ def evaluate(dic, cmd, cfg, emitted, with_constraints=None, reload=None):
     for i, o in dic.items():
         if type(o).__name__ == "Parameter" and i in moved and o.tensor.dtype != torch.float64:
             fails.append((f"eval:dtype:{i}", f"`{i}` is moved by the sampler but is {o.tensor.dtype} under torchtree's float64 default"))
+    EXTRA_JAC[0] = []
     snapshot = {i: o.tensor.detach().clone() for i, o in dic.items() if type(o).__name__ == "Parameter"}
     # ---- grad modes: a fresh load evaluated under no_grad must give bitwise the same density
     v_nograd = None
@@ -259,9 +391,7 @@ def evaluate(dic, cmd, cfg, emitted, with_constraints=None, reload=None):
         if len({id(l) for l in listed}) != len(listed):
             fails.append(("eval:jacobian-listed-twice", f"joint.jacobian lists a term twice: {names(listed)}"))
         extra = [l for l in listed if not any(l is t for t in need)]
-        if extra:
-            EXTRA_NOTES.add("Jacobian counted for a transform under which NO prior is placed (implicit flat prior on the "
-                            "constrained scale; allowed by the property): " + ", ".join(names(extra)))
+        EXTRA_JAC[0] = [t for t in extra if not zero_jacobian(t)]
         with torch.no_grad():
             lhs = (dic["joint.jacobian"]() - dic["joint"]()).sum().item()
             rhs = sum(float(t().sum()) for t in need if any(l is t for l in listed) or not zero_jacobian(t)) \
@@ -282,6 +412,13 @@ def evaluate(dic, cmd, cfg, emitted, with_constraints=None, reload=None):
             o = dic.get(i)
             if o is not None and type(o).__name__ != "Parameter":
                 fails.append((f"eval:moved-not-a-plain-parameter:{i}", f"the sampler moves `{i}`, a {type(o).__name__}"))
+    # ---- estimated vs fixed
+    if cfg.get("extra") is None or not any(x in ("--location_regex", "--metadata", "--poisson", "--split", "--join") or x.startswith("-q")
+                                            for x in cfg.get("extra") or []):
+        try:
+            fails += free_fixed_violations(dic, cfg, moved)
+        except Exception as e:  # noqa: BLE001
+            fails.append((f"eval:free-fixed-check-raised:{type(e).__name__}", str(e)[:160]))
     # ---- requested initial values
     fails += check_init(dic, cfg)
     return fails
@@ -294,6 +431,9 @@ def emitted_moved_ids(emitted, cmd):
             continue
         if el.get("type") == "MCMC":
             for op in el.get("operators", []):
+                if op.get("type") == "GMRFPiecewiseCoalescentBlockUpdatingOperator":
+                    ids.append("coalescent.theta.log")     # the block update moves the log population sizes
+                    continue
                 ps = op.get("parameters")
                 ids += ps if isinstance(ps, list) else [ps]
         elif el.get("type") == "Optimizer" and cmd == "map":
@@ -519,7 +659,7 @@ def check_extra(C, cfg, emitted, dic, data):
         same = json.dumps(base_emitted, sort_keys=True) == json.dumps(emitted, sort_keys=True)
     except Exception:  # noqa: BLE001
         same = False
-    if tuple(extra) in NO_EFFECT_OK or (extra[0],) in NO_EFFECT_OK:
+    if tuple(extra) in NO_EFFECT_OK or (extra[0],) in NO_EFFECT_OK or (extra[0] == "--frequencies" and cfg.get("model") == "JC69"):
         pass
     elif same and len(extra) <= 2:
         fails.append((f"cli:option-ignored:{extra[0]}", f"the documented option {extra[0]} changes nothing in the emitted file"))
@@ -805,6 +945,8 @@ def configs(ck):
         add(c, "core-lite")
     for c in S.single_options():
         add(c, "single")
+    for c in S.frequency_sweep():
+        add(c, "frequencies")
     for c in S.pairwise(ck.rng):
         add(c, "pairwise")
     if ck.thorough():
